@@ -40,6 +40,7 @@ pub open spec fn create_bid_only_if(st: StoreV, b: BidOrderV3, sender: Seq<char>
     &&& b.base.amount.v >= 1 && (b.base.amount.v as int) % (i.size_increment.v as int) == 0
     &&& is_whole(pmul(pq(b.price@), b.base.amount.v as int))
     &&& of_int(b.quote.amount.v as int) == pmul(pq(b.price@), b.base.amount.v as int)
+    &&& (b.base.amount.v as int) < LIMIT96() && (b.quote.amount.v as int) < LIMIT96() && coin_amt(b.fee) < LIMIT96()
     &&& coin_amt(b.fee) == fee_of(bid_fee_rate(i), b.quote.amount.v as int)
     &&& (b.fee is Some ==> b.fee->0.denom@ == b.quote.denom@)
     &&& str_member(i.supported_quote_denoms@, b.quote.denom@)
